@@ -44,6 +44,9 @@ func (ex *Exec) verifyClosure(st *State, clo *Closure, ord int, ls *LoopSpec) {
 		st.assume(t)
 	}
 	entry := st.clone()
+	savedOld := ex.old
+	ex.old = entry
+	defer func() { ex.old = savedOld }()
 	ex.callClosure(st, clo, args, func(st2 *State, rv []Val) {
 		env := ex.envAt(st2, lit.Body.Rbrace)
 		env.old = entry
